@@ -13,6 +13,9 @@ CHECKS = {
     'C03': dict(tech='exhaustive enumeration of token-level deviations and of all token strings up to a length bound, executed on specs_to_ir and stone.cli.main',
                 text='Every single token-level deviation at every token of the base specs, every token string up to length 3 (quick) / 4 (thorough) in three layouts, every lang_ref snippet and token prefix, and all ordered pairs of one representative per outcome class must end in an Api or a well-formed InvalidSpec within the watchdog; one representative per outcome class is replayed through the CLI.',
                 note='Termination judged by a 20 s watchdog; mutation tokenizer is the harness\'s own.', ref='6/C03'),
+    'C11': dict(tech='exhaustive enumeration of layout variants (file/definition permutations, set partitions into files, comment/blank/continuation insertions, stdin) of every BFS-explored model, executed on specs_to_ir, the built-in backends and stone.cli.main',
+                text='For every model of the layout exploration, every file permutation, every definition permutation per file, every set partition of a namespace into up to three files, one comment/blank/trailer insertion at every line boundary, every continuation break and stdin delivery must give the same API signature (namespace docs recomputed in file order); backend output bytes are compared for the structural variants; a layout that flips acceptance is a violation.',
+                note='Backend byte comparison is restricted to the shallower models in the quick tier (the signature dump covers everything backends read); positions inside multi-line doc strings are not layout.', ref='6/C11'),
 }
 
 NOT_YET = {}
